@@ -18,6 +18,7 @@ from __future__ import annotations
 
 import json
 import os
+import signal
 import subprocess
 import sys
 import time
@@ -32,6 +33,17 @@ GEN_TABLES = ("multiplicity", "raises")
 NESTING_BOUND = 150
 RATIO = 4.4  # calls(2n) <= RATIO * calls(n): quadratic growth (ratio 4) passes, 2^n does not
 HOLE = "§"
+TIME_CAP = 45.0  # CPU seconds for one parse+rebuild of a generated text (the largest takes < 2 s on the unchanged tree)
+
+
+class TimeBudgetExceeded(BaseException):
+    """raised from the SIGPROF handler (CPU time, so machine load does not matter); BaseException so
+    that no `except Exception` of the library swallows it"""
+
+
+def _on_sigprof(_sig, _frm):
+    raise TimeBudgetExceeded()
+
 
 # ---------------------------------------------------------------- input families
 # one nesting step per construct and layout variant; HOLE is where the next level goes
@@ -139,6 +151,35 @@ def nest_text(template: str, n: int, leaf: str) -> str:
     for _ in range(n):
         text = template.replace(HOLE, text)
     return text
+
+
+def nest_indented(template: str, n: int, leaf: str) -> str:
+    """like nest_text, but the nested text is indented with the line its hole is on (RFC style): the
+    indentation in the INPUT grows with the depth"""
+    pre = template.split(HOLE)[0]
+    pad = pre.rsplit("\n", 1)[-1]
+    pad = pad[: len(pad) - len(pad.lstrip(" "))]
+    text = leaf
+    for _ in range(n):
+        text = template.replace(HOLE, text.replace("\n", "\n" + pad))
+    return text
+
+
+# nesting steps whose gaps hold an own-line comment (kept as text by the parser), nested with growing
+# indentation: work per gap must not depend exponentially on the indentation
+INDENTED = [
+    ("set-value-comment", "{\n  a =\n    # c\n    §;\n}"), ("set-comment", "{\n  # c\n  a = §;\n}"),
+    ("if-then-comment", "if a then\n  # c\n  (§)\nelse\n  b"), ("if-else-comment", "if a then\n  b\nelse\n  # c\n  (§)"),
+    ("paren-comment-nl", "(\n  # c\n  §\n)"), ("list-comment", "[\n  # c\n  (§)\n]"),
+    ("let-value-comment", "let\n  v =\n    # c\n    §;\nin\nv"), ("let-body-comment", "let\n  v = 1;\nin\n# c\n(§)"),
+    ("lambda-comment", "a:\n# c\n(§)"), ("with-comment", "with a;\n# c\n(§)"), ("assert-comment", "assert a;\n# c\n(§)"),
+    ("call-comment", "f\n  # c\n  (§)"), ("select-comment", "(§)\n  # c\n  .a"), ("plus-comment", "a +\n  # c\n  (§)"),
+    ("concat-comment", "a\n  # c\n  ++ (§)"), ("has-attr-comment", "(§)\n  # c\n  ? a"),
+    ("formal-default-comment", "{\n  a ?\n    # c\n    (§),\n  ...\n}: a"),
+    ("inherit-comment", "{\n  inherit\n    # c\n    (§)\n    a;\n}"),
+    ("block-comment-ml", "{\n  a =\n    /* c\n       d */\n    §;\n}"), ("blank-lines", "{\n\n  a =\n\n    §;\n\n}"),
+    ("trailing-ws", "{   \n  a =   \n    §;   \n}"), ("tabs", "{\n\ta =\n\t\t§;\n}"), ("crlf", "{\r\n  a =\r\n    §;\r\n}"),
+]
 
 
 def family_text(name: str, leaf: str | None, n: int) -> str:
@@ -275,17 +316,29 @@ class Probe:
         tr.reset(budget)
         res = {"exc": None, "site": None, "frames": 0, "cpu": 0.0, "error_text": False, "doubled": [],
                "skeleton": None, "exceeded": False, "out": None}
+        res["timeout"] = False
         t0 = time.process_time()
+        old = signal.signal(signal.SIGPROF, _on_sigprof)
+        signal.setitimer(signal.ITIMER_PROF, TIME_CAP)
         try:
-            src = parse(text)
-            res["error_text"] = bool(src.contains_error)
-            res["out"] = src.rebuild()
+            try:
+                src = parse(text)
+                res["error_text"] = bool(src.contains_error)
+                res["out"] = src.rebuild()
+            finally:
+                signal.setitimer(signal.ITIMER_PROF, 0)
+        except TimeBudgetExceeded:
+            res["timeout"] = True
         except BudgetExceeded:
             res["exceeded"] = True
         except Exception as exc:  # noqa: BLE001
             res["exc"] = exc
             res["site"] = exc_site(exc)
+        finally:
+            signal.signal(signal.SIGPROF, old)
         res["cpu"] = time.process_time() - t0
+        if res["timeout"]:
+            return res
         res["frames"] = tr.frames
         if res["exceeded"] and tr.frames:
             # the frames that were completed before the budget ran out still tell which edges double
@@ -344,6 +397,9 @@ def check_family(ctx, probe: Probe, label: str, gen, depths, failures: list, sum
             break
         if counts.get(n) is None:
             r = probe.run(gen(n))
+            if time_failure(r, gen(n), label, n, failures):
+                summary[label] = {n: f">{TIME_CAP}s"}
+                return
             if observe_exception(ctx, r, gen(n), label, n):
                 return
             if r["error_text"]:
@@ -356,6 +412,10 @@ def check_family(ctx, probe: Probe, label: str, gen, depths, failures: list, sum
         text2 = gen(n2)
         r2 = probe.run(text2, budget=budget)
         ctx.case({"family": label, "n": n2}, True)
+        if time_failure(r2, text2, label, n2, failures):
+            row[n2] = f">{TIME_CAP}s"
+            summary[label] = row
+            return
         if observe_exception(ctx, r2, text2, label, n2):
             return
         if r2["exceeded"]:
@@ -376,6 +436,19 @@ def check_family(ctx, probe: Probe, label: str, gen, depths, failures: list, sum
         row[n] = base
         row[n2] = r2["frames"]
     summary[label] = row
+
+
+def time_failure(r, text, label, n, failures) -> bool:
+    if not r.get("timeout"):
+        return False
+    failures.append({
+        "key": {"clause": "time", "family": label.split("/")[0]},
+        "input": {"family": label, "n": n, "text": text if len(text) < 6000 else text[:6000] + "…", "cap_s": TIME_CAP,
+                  "frames": r["frames"]},
+        "what": f"family {label}: parse+rebuild at depth/size {n} ({len(text)} characters) used more than {TIME_CAP} s "
+                f"of CPU (completed rebuild calls so far: {r['frames']}); the other depths of the family take milliseconds",
+    })
+    return True
 
 
 def observe_exception(ctx, r, text, label, n) -> bool:
@@ -433,6 +506,27 @@ def damaged(ctx, text: str, quick: bool):
     return [b.decode("utf-8", "ignore") for b in out]
 
 
+def conflict_texts():
+    """the same (dotted) attribute defined twice, every ordered pair of path shape x value kind: the
+    documented outcome is a merged set or ValueError('Duplicate …')"""
+    paths = ["a", "a.b", "a.b.c", "a.\"b\"", "a.${b}", "\"a\".b"]
+    values = ["1", "{ x = 1; }", "{ }", "rec { x = 1; }", "[ 1 ]", "x", "{ x.y = 1; }", "{ b = 1; }", "{ b.c = 1; }",
+              "{ inherit x; }", "f { }", "{ b = { c = 1; }; }"]
+    for holder in ("{{ {B} }}", "rec {{ {B} }}", "let {B} in a", "{{ z = {{ {B} }}; }}", "{{\n  {B}\n}}"):
+        for p1 in paths:
+            for v1 in values:
+                for p2 in paths:
+                    for v2 in values:
+                        if holder != "{{ {B} }}" and (len(p1) + len(v1) + len(p2) + len(v2)) % 5:
+                            continue
+                        yield holder.format(B=f"{p1} = {v1}; {p2} = {v2};")
+    for extra in ("{ inherit a; a.b = 1; }", "{ a.b = 1; inherit a; }", "{ inherit (x) a; a = { }; }",
+                  "{ a.b = 1; a = { c = 2; }; a.d = 3; }", "{ a = { b = 1; }; a = { c = 2; }; a = 3; }",
+                  "{ a.b.c = 1; a.b = { d = 2; }; a = { b.e = 3; }; }", "{ a.b = { c = 1; }; a.b.c = 2; }",
+                  "let a.b = 1; a.b = 2; in a", "{ a.b = x: x; a.b = 2; }", "{ a.b = { x = 1; }; a.b = x: x; }"):
+        yield extra
+
+
 def random_text(rng, max_len: int) -> str:
     n = rng.randint(0, max_len)
     out = []
@@ -456,6 +550,10 @@ def run_text(ctx, probe: Probe, text: str, kind: str, want_cost: bool = False):
     r = probe.run(text, budget=2_000_000, want_skeleton=want_cost)
     ctx.case({"kind": kind, "text": text[:200]}, nontrivial=kind != "template")
     ctx.count("texts:" + kind)
+    if r.get("timeout"):
+        ctx.fail({"clause": "time", "family": kind}, {"text": text[:6000], "cap_s": TIME_CAP},
+                 f"parse+rebuild of a {len(text)}-character text used more than {TIME_CAP} s of CPU")
+        return r
     if r["exceeded"]:
         ctx.fail({"clause": "cost", "class": "?", "field": "?"}, {"text": text[:4000]},
                  "more than 2,000,000 rebuild calls for a short text")
@@ -478,7 +576,8 @@ def run(ctx: fw.Ctx):
         "texts: valid templates, every single-token deletion/duplication/insertion and every byte truncation of "
         "them, random UTF-8 text (non-trivial = anything but an unmodified template); families: one nesting step "
         "per construct and layout variant, nested n times (and random cycles of 2-3 steps), plus size-scaled "
-        "long inputs; every (family, depth) is one case"
+        "long inputs; indented families (comment-bearing gaps with indentation growing with the depth) under a CPU cap "
+        "per text; every ordered pair of duplicate (dotted) attribute definitions; every (family, depth) is one case"
     )
     ctx.trusted_base = [
         "Lean 4 kernel; axioms propext, Classical.choice, Quot.sound only",
@@ -494,7 +593,8 @@ def run(ctx: fw.Ctx):
         "(CPython's limit of 1000 frames is reached at roughly 200-500 nested constructs); not judged beyond the bound",
         "implicit exceptions (IndexError/AttributeError/TypeError from partial operations) have no raise site: "
         "they are excluded by the oracle on the generated streams only, not by a theorem",
-        "wall-clock time is not modelled; cost = number of rebuild invocations (each does work polynomial in its output)",
+        "time is not modelled in Lean; cost = number of rebuild invocations; that each invocation (and the parser's gap "
+        f"handling) does work polynomial in its text is observed only, through a CPU cap of {TIME_CAP} s per generated text",
         "input text is a Python str (immutable): 'input left untouched' holds by construction",
     ]
     try:
@@ -558,6 +658,10 @@ def explore(ctx, probe: Probe, failures: list, summary: dict, deadline: float, w
             check_family(ctx, probe, label, lambda n, t=tmpl, l=leaf: nest_text(t, n, l), pairs, failures, summary)
     for name, gen in SIZED.items():
         check_family(ctx, probe, name, gen, pairs if quick else pairs + [(32, 64)], failures, summary, sized=True)
+    for wname, tmpl in INDENTED:
+        for lname, leaf in LEAVES[:1] if quick else LEAVES:
+            check_family(ctx, probe, f"indented:{wname}/{lname}", lambda n, t=tmpl, l=leaf: nest_indented(t, n, l),
+                         [(4, 8), (8, 16)] if quick else [(4, 8), (8, 16), (16, 32)], failures, summary)
     # CPU time must follow the call counts (thorough tier): doubling the size of a long input whose call
     # count is linear must not multiply the time by more than 10 (quadratic string handling passes)
     if not quick:
@@ -612,6 +716,8 @@ def explore(ctx, probe: Probe, failures: list, summary: dict, deadline: float, w
     # --- (a) exception classes
     for t in TEMPLATES:
         run_text(ctx, probe, t, "template", want_cost=True)
+    for t in conflict_texts():
+        run_text(ctx, probe, t, "conflict")
     budget_texts = 15000 if quick else 300000
     done = 0
     for t in TEMPLATES:
